@@ -225,7 +225,7 @@ prop(
     "C02",
     level="other",
     design_ref="DESIGN.md section 3, C02",
-    groups=[(_PIPE, r"^(\(\*stream\)\.(put|get|instantGet|commit|tryDetach|leave|tryUnblock)|\(\*streamer\)\.getStream|\(\*Pipeline\)\.(finalize|streamEvent)|\(\*processor\)\.(processEvent|processSequence|Propagate|doActions|Spawn)|\(\*Batcher\)\.(Add|commitBatch))$")],
+    groups=[(_PIPE, r"^(\(\*stream\)\.(put|get|instantGet|blockGet|attach|commit|tryDetach|leave|tryUnblock)|\(\*streamer\)\.(getStream|joinStream)|\(\*processor\)\.dischargeStream|\(\*Pipeline\)\.(finalize|streamEvent)|\(\*processor\)\.(processEvent|processSequence|Propagate|doActions|Spawn)|\(\*Batcher\)\.(Add|commitBatch))$")],
     claim=(
         "Per-stream order mechanisms proved: stream.put hands out strictly increasing sequence ids in arrival order under the stream lock and appends at the tail; get takes the head (FIFO) and records it as the stream's away event; "
         "after hold/collapse the processor takes the next event from the same stream; Propagate re-injects a held event at the action after the one that held it before the triggering event continues; "
@@ -245,7 +245,7 @@ prop(
     "C04",
     level="other",
     design_ref="DESIGN.md section 3, C04",
-    groups=[(_PIPE, r"^(\(\*eventPool\)\.wakeupWaiters|\(\*lowMemoryEventPool\)\.(wakeupWaiters|back|eventsAvailable)|\(\*stream\)\.(put|tryDetach|tryUnblock)|\(\*streamer\)\.(makeCharged|makeBlocked|resetBlocked|isBlocked)|\(\*Batch\)\.updateStatus|\(\*Batcher\)\.(heartbeat|work))$")],
+    groups=[(_PIPE, r"^(\(\*eventPool\)\.wakeupWaiters|\(\*lowMemoryEventPool\)\.(wakeupWaiters|back|eventsAvailable)|\(\*stream\)\.(put|tryDetach|tryUnblock|blockGet|attach)|\(\*streamer\)\.(makeCharged|makeBlocked|resetBlocked|isBlocked|joinStream)|\(\*processor\)\.(process|dischargeStream|tryMarkBusy|tryResetBusy)|\(\*Batch\)\.updateStatus|\(\*Batcher\)\.(heartbeat|work))$")],
     canaries=[("./pipeline", "replay/C04/zz_replay_c04_test.go", "TestVerifReplayC04"),
               ("./pipeline", "replay/C04/zz_stale_heartbeat_snapshot_test.go", "TestVerifStaleHeartbeatSnapshot")],
     claim=(
